@@ -1,10 +1,12 @@
 import CppUModel.Base.Proto
 import CppUModel.Model.OutputOps
 import CppUModel.Model.TeamCity
+import CppUModel.Model.TeamCityLoop
 import CppUModel.Spec.TeamCity
 /-!
 Driver for C20.  Model replay: the registry described by the operations is run through the runner
-model and the TeamCity writer model; at `run` the model prints the whole stream (`out <hex>`).
+model — the loop of `runAllTests` executed from its regenerated statement list (`Model/TeamCityLoop.lean`) — and the
+TeamCity writer model — the callbacks executed from their regenerated statement lists (`Model/TeamCity.lean`); at `run` the model prints the whole stream (`out <hex>`).
 Specification oracle: the implementation's stream is decoded by the independent service-message
 parser of `Spec/TeamCity.lean`, checked for balance, and the decoded values are compared with
 the originals taken from the operation lines (grouping written independently of the runner model).
@@ -13,17 +15,25 @@ open OutEv OutOps TeamCity
 
 structure DState where
   reg : Reg := {}
+  composite : Nat := 0        -- `composite <1|2>`: the TeamCity output is outputOne_ / outputTwo_ of a CompositeTestOutput
 
 def modelStep (d : DState) (op : List String) (_obs : List (List String)) : DState × List String :=
   match op with
   | ["run"] =>
     -- `-p` (every test in its own process) is not part of the writer model: such a run is only judged by the oracle
     if d.reg.separate then (d, []) else
-    (d, ["out " ++ Proto.hex (TeamCity.streamV (d.reg.verbosity == 2) (runRepeated d.reg.repeats d.reg.filter d.reg.scripts))])
+    if d.composite != 0 && !d.reg.realio then
+      (d, ["out " ++ Proto.hex (TeamCity.streamComposite d.composite (d.reg.verbosity == 2) (RunLoop.runRepeatedGen d.reg.repeats d.reg.filter d.reg.scripts)),
+           "sink 1"]) else
+    (d, ["out " ++ Proto.hex (TeamCity.streamV (d.reg.verbosity == 2) (RunLoop.runRepeatedGen d.reg.repeats d.reg.filter d.reg.scripts))])
   | ["skip"] => (d, [])
+  | ["childstop"] => (d, [])         -- only acts in a forked test process of a `-p` run (judged by the oracle only)
+  | ["slow", _] => (d, [])          -- real time, invisible to the stubbed clock
+  | ["composite", "1"] => ({ d with composite := 1 }, [])
+  | ["composite", "2"] => ({ d with composite := 2 }, [])
   | w =>
     match applyOp d.reg w with
-    | some r => ({ reg := r }, [])
+    | some r => ({ d with reg := r }, [])
     | none => (d, ["bad-op"])
 
 /-! ## specification oracle -/
@@ -63,18 +73,33 @@ inductive Want
 deriving Inhabited
 
 /-- `separate` = the run used `-p`: the test's own failures are reported by its child process, and the
-    runner adds one more ("Failed in separate process", located at the test) when the child failed -/
-def wantTest (separate : Bool) (t : Script) : List Want :=
+    runner adds one more ("Failed in separate process", located at the test) when the child failed;
+    `stop` = the test's process stops itself at the start of the body (`childstop`, only effective with `-p`): the runner
+    reports the stop first (a failure located at the test) and continues the child, whose own failures follow -/
+def wantTest (separate : Bool) (ts : Script × Bool) : List Want :=
+  let t := ts.1
   if t.info.willRun then
     let fs := scriptFailures t.info t.acts
+    let pre := if separate && ts.2 then [(t.info.file, t.info.line, lit "Stopped in separate process - continuing")] else []
     let extra := if separate && !fs.isEmpty then [(t.info.file, t.info.line, lit "Failed in separate process")] else []
-    [.testStarted t.info.name] ++ (fs ++ extra).map (fun (f, l, m) => .testFailed t.info f l m) ++
+    [.testStarted t.info.name] ++ (pre ++ fs ++ extra).map (fun (f, l, m) => .testFailed t.info f l m) ++
       [.testFinished t.info.name]
   else [.testStarted t.info.name, .testIgnored t.info.name, .testFinished t.info.name]
 
-def wantAll (separate : Bool) (flt : Option Filter) (scripts : List Script) : List Want :=
-  (groupRuns scripts).flatMap fun (g, ts) =>
-    [.suiteStarted g] ++ (ts.filter (fun t => shouldRun flt t.info)).flatMap (wantTest separate) ++ [.suiteFinished g]
+/-- maximal runs of consecutive (script, stop mark) pairs with the same group name -/
+def groupRunsS : List (Script × Bool) → List (Text.Bytes × List (Script × Bool))
+  | [] => []
+  | t :: rest =>
+    match groupRunsS rest with
+    | (g, ts) :: more => if g == t.1.info.group then (g, t :: ts) :: more else (t.1.info.group, [t]) :: (g, ts) :: more
+    | [] => [(t.1.info.group, [t])]
+
+def markStops (scripts : List Script) (stops : List Nat) : List (Script × Bool) :=
+  (scripts.zip (List.range scripts.length)).map fun p => (p.1, stops.contains p.2)
+
+def wantAll (separate : Bool) (flt : Option Filter) (scripts : List Script) (stops : List Nat) : List Want :=
+  (groupRunsS (markStops scripts stops)).flatMap fun (g, ts) =>
+    [.suiteStarted g] ++ (ts.filter (fun t => shouldRun flt t.1.info)).flatMap (wantTest separate) ++ [.suiteFinished g]
 
 /-- readable rendering of a byte string inside a one-line reason: printable ASCII as is, the rest as \xNN -/
 def showB (b : Text.Bytes) : String :=
@@ -120,7 +145,7 @@ def printsHash (scripts : List Script) : Bool :=
     | .print f _ x => f.contains 35 || x.contains 35
     | _ => false
 
-def specRun (reg : Reg) (out : Text.Bytes) : Option String :=
+def specRun (reg : Reg) (stops : List Nat) (out : Text.Bytes) : Option String :=
   if printsHash reg.scripts then none else
   match TeamCity.parse out with
   | .error e => some s!"stream does not parse as service messages: {e}"
@@ -130,10 +155,10 @@ def specRun (reg : Reg) (out : Text.Bytes) : Option String :=
     else if !(failuresInOpenTest none msgs) then
       some "a failure message does not belong to the currently open test (its name is not the name announced by testStarted, or no test is open)"
     else if !(balanced msgs) then some "messages are not balanced (suite/test start and finish do not pair up)"
-    else matchAll 0 ((List.range reg.repeats).flatMap fun _ => wantAll reg.separate reg.filter scripts) (msgs.filter (fun m => !(isText m)))
+    else matchAll 0 ((List.range reg.repeats).flatMap fun _ => wantAll reg.separate reg.filter scripts stops) (msgs.filter (fun m => !(isText m)))
 
 def specAll (ops : List Proto.Op) : Option String :=
-  let rec go (reg : Reg) (i : Nat) : List Proto.Op → Option String
+  let rec go (reg : Reg) (stops : List Nat) (i : Nat) : List Proto.Op → Option String
     | [] => none
     | o :: rest =>
       match o.op with
@@ -144,15 +169,16 @@ def specAll (ops : List Proto.Op) : Option String :=
           | _ => none
         match outs with
         | [out] =>
-          match specRun reg out with
-          | none => go reg (i + 1) rest
+          match specRun reg stops out with
+          | none => go reg stops (i + 1) rest
           | some e => some s!"op#{i} run: {e}"
         | _ => some s!"op#{i} run: no output captured"
+      | ["childstop"] => go reg (if reg.tests.isEmpty then stops else (reg.tests.length - 1) :: stops) (i + 1) rest
       | w =>
         match applyOp reg w with
-        | some r => go r (i + 1) rest
-        | none => go reg (i + 1) rest
-  go {} 0 ops
+        | some r => go r stops (i + 1) rest
+        | none => go reg stops (i + 1) rest
+  go {} [] 0 ops
 
 def main : IO Unit :=
   Proto.driverMain { init := ({} : DState), step := modelStep, spec := specAll }
